@@ -13,5 +13,5 @@ if n != 1:
     print(f"pattern matches {n} times (need exactly 1)"); sys.exit(1)
 open(p, "w").write(re.sub(pat, rep, s, count=1, flags=re.M))
 PY
-( cd /verif && VERIF_REPO="$WT" ./check "$PROP" "$@" 2>/dev/null | grep -v "^  " | cut -c1-300 )
+( cd "${VERIF_DIR:-/verif}" && VERIF_REPO="$WT" ./check "$PROP" "$@" 2>/dev/null | cut -c1-400 )
 git -C /repo worktree remove --force "$WT"
